@@ -287,6 +287,9 @@ def parse_response(buf):
     ret['status_code'] = cr.status_code
     ret['status_text'] = cr.status_text
     params = cr.body
+    if params is None:
+        # Error responses usually carry no body: report every body field as absent
+        params = ControlParametersValue()
     for k in ControlParametersValue._encoded_fields:
         val = getattr(params, k.name)
         if isinstance(val, memoryview):
